@@ -127,7 +127,7 @@ def norm_case(case):
     pool = []
     for e in case['pool']:
         e = dict(e)
-        for key in ('from', 'to', 'c1', 'c2', 'fn', 'inv', 'f', 'g'):
+        for key in ('from', 'to', 'c1', 'c2', 'fn', 'inv', 'f', 'g', 'cids1', 'cids2', 'offsets', 'matrix', 'subs'):
             if key in e and e[key] is not None:
                 e[key] = tup(e[key])
         pool.append(e)
@@ -160,7 +160,38 @@ def entry_sublinks(pool, i):
     if k == 'invof':
         (fr, to, fn, inv), = entry_sublinks(pool, e['of'])
         return [((to,), fr[0], inv, fn)]
+    # ---- link-helper collections: the set of their member links, added / removed together
+    if k == 'aligned':          # LinkAligned(data1, data2): identity links between the pixel axes; cids1 = cids2 = []
+        return [(((e['d1'], 0),), (e['d2'], 0), ID_FN, ID_FN)]
+    if k == 'units':            # LinkSameWithUnits (a LinkTwoWay whose functions are methods; same / no units)
+        return [((e['c1'],), e['c2'], ID_FN, None), ((e['c2'],), e['c1'], ID_FN, None)]
+    if k == 'offset':           # OffsetLink: cids2[i] = cids1[i] - offsets[i] (every member link takes all of cids1)
+        n = len(e['cids1'])
+        unit = lambda i: tuple(1 if j == i else 0 for j in range(n))
+        return ([(tuple(e['cids1']), e['cids2'][i], (-e['offsets'][i], unit(i)), None) for i in range(n)] +
+                [(tuple(e['cids2']), e['cids1'][i], (e['offsets'][i], unit(i)), None) for i in range(n)])
+    if k == 'affine':           # AffineLink: cids2 = A cids1 + t, and back with the (integer) inverse
+        n = len(e['cids1'])
+        fw, bw = e['matrix'], affine_inverse(e['matrix'])
+        return ([(tuple(e['cids1']), e['cids2'][i], (fw[i][n], tuple(fw[i][:n])), None) for i in range(n)] +
+                [(tuple(e['cids2']), e['cids1'][i], (bw[i][n], tuple(bw[i][:n])), None) for i in range(n)])
+    if k == 'manual':           # a LinkCollection holding arbitrary ComponentLinks, cids1 = cids2 = []
+        return [(tuple(fr), to, fn, inv) for fr, to, fn, inv in e['subs']]
     raise ValueError(k)
+
+
+COLLECTION_KINDS = ('same', 'twoway', 'aligned', 'units', 'offset', 'affine', 'manual')
+
+
+def affine_inverse(rows):
+    """rows of [A | t] (integers, det +-1) -> rows of [A^-1 | -A^-1 t] as integers"""
+    n = len(rows)
+    m = np.eye(n + 1)
+    m[:n, :] = np.array(rows, dtype=float)
+    inv = np.linalg.inv(m)
+    out = np.rint(inv[:n, :]).astype(int)
+    assert np.allclose(out, inv[:n, :])
+    return [[int(x) for x in r] for r in out]
 
 
 def entry_flat_links(pool, i):
@@ -210,7 +241,7 @@ def w_entry(pool, i):
     for j, (fr, to, fn, inv) in enumerate(entry_sublinks(pool, i)):
         subs.append((0, [w_link(10 * i + j, fr, to, fn), ((1, [w_fn(inv)]) if inv is not None else (0, []))]))
     inv_id = entry_inv_id(pool, i)
-    return (i, [(1 if e['kind'] in ('same', 'twoway') else 0, []),
+    return (i, [(1 if e['kind'] in COLLECTION_KINDS else 0, []),
                 ((1, [inv_id]) if inv_id is not None else (0, [])),
                 (0, subs)])
 
@@ -328,6 +359,9 @@ class Impl:
                 self.add_derived(d, k)
         with time_limit(10):
             self.dc = DataCollection([self.data[ds['id']] for ds in case['datasets'] if ds['member']])
+        for i, e in enumerate(case['pool']):
+            if e['kind'] == 'units':      # reads the components' units when it is built: built while they exist
+                self.entry(i)
         self.universe = sorted(case['vals'])
         self.persistent = None
         self.pcache = {}
@@ -374,6 +408,29 @@ class Impl:
             o = LinkTwoWay(self.getcid(e['c1']), self.getcid(e['c2']), mkfn(e['f']), mkfn(e['g']))
         elif k == 'invof':
             o = self.entry(e['of']).inverse
+        elif k == 'aligned':
+            from glue.core.link_helpers import LinkAligned
+            o = LinkAligned(self.data[e['d1']], self.data[e['d2']])
+        elif k == 'units':
+            from glue.core.link_helpers import LinkSameWithUnits
+            o = LinkSameWithUnits(self.getcid(e['c1']), self.getcid(e['c2']))
+        elif k == 'offset':
+            from glue.plugins.wcs_autolinking.wcs_autolinking import OffsetLink
+            o = OffsetLink(data1=self.data[e['cids1'][0][0]], data2=self.data[e['cids2'][0][0]],
+                           cids1=[self.getcid(c) for c in e['cids1']], cids2=[self.getcid(c) for c in e['cids2']],
+                           offsets=list(e['offsets']))
+        elif k == 'affine':
+            from glue.plugins.wcs_autolinking.wcs_autolinking import AffineLink
+            n = len(e['cids1'])
+            m = np.eye(n + 1)
+            m[:n, :] = np.array(e['matrix'], dtype=float)
+            o = AffineLink(data1=self.data[e['cids1'][0][0]], data2=self.data[e['cids2'][0][0]],
+                           cids1=[self.getcid(c) for c in e['cids1']], cids2=[self.getcid(c) for c in e['cids2']], matrix=m)
+        elif k == 'manual':
+            from glue.core.link_helpers import LinkCollection
+            o = LinkCollection(data1=self.data[e['d1']], data2=self.data[e['d2']])
+            o._links[:] = [ComponentLink([self.getcid(c) for c in fr], self.getcid(to), using=mkfn(fn),
+                                         inverse=(mkfn(inv) if inv is not None else None)) for fr, to, fn, inv in e['subs']]
         else:
             raise ValueError(k)
         self.obj[i] = o
@@ -814,6 +871,8 @@ def gen_pool(rng, datasets, vals, size, live_only=True):
     by_ds = {}
     for c in cids:
         by_ds.setdefault(c[0], []).append(c)
+    nelem = {ds['id']: ds['n'] for ds in datasets}
+    mains = {ds['id']: [(ds['id'], k) for k in ds['main']] for ds in datasets}
     pool = []
 
     def pick_two():
@@ -822,31 +881,76 @@ def gen_pool(rng, datasets, vals, size, live_only=True):
         else:
             d1 = d2 = rng.choice(sorted(by_ds))
         return rng.choice(by_ds[d1]), rng.choice(by_ds[d2])
-    while len(pool) < size:
+
+    def one_way(k=None):
+        k = k or rng.choice([1, 1, 2])
+        c1, c2 = pick_two()
+        fr = (c1,) if k == 1 else tuple([c1] + [rng.choice(cids) for _ in range(k - 1)])
+        return (fr, c2, rand_fn(rng, k), None)
+    tries = 0
+    while len(pool) < size and tries < 200:
+        tries += 1
         r = rng.random()
         c1, c2 = pick_two()
         if c1 == c2:
             continue
-        if r < 0.2:
+        if r < 0.15:
             pool.append({'kind': 'same', 'c1': c1, 'c2': c2})
-        elif r < 0.35:
+        elif r < 0.25:
             pool.append({'kind': 'twoway', 'c1': c1, 'c2': c2, 'f': rand_fn(rng, 1), 'g': rand_fn(rng, 1)})
-        elif r < 0.5:
+        elif r < 0.37:
             pool.append({'kind': 'single', 'from': (c1,), 'to': c2, 'fn': None, 'inv': None})
-        elif r < 0.65:
+        elif r < 0.49:
             f = rand_fn(rng, 1, unit=True)
             pool.append({'kind': 'single', 'from': (c1,), 'to': c2, 'fn': f, 'inv': inv_unit(f)})
-        elif r < 0.8:
+        elif r < 0.60:
             pool.append({'kind': 'single', 'from': (c1,), 'to': c2, 'fn': rand_fn(rng, 1), 'inv': None})
-        elif r < 0.95:
+        elif r < 0.72:
             k = rng.choice([2, 2, 3])
             fr = tuple(rng.choice(cids) for _ in range(k))
             pool.append({'kind': 'single', 'from': fr, 'to': c2, 'fn': rand_fn(rng, k), 'inv': None})
-        else:
+        elif r < 0.76:
             cand = [i for i, e in enumerate(pool) if e['kind'] == 'single' and (e['fn'] is None or e['inv'] is not None)
                     and len(e['from']) == 1 and entry_inv_id(pool, i) is None]
             if cand:
                 pool.append({'kind': 'invof', 'of': rng.choice(cand)})
+        elif r < 0.84:
+            # LinkAligned needs equal shapes
+            pairs = [(x, y) for x in nelem for y in nelem if x != y and nelem[x] == nelem[y]]
+            if pairs:
+                d1, d2 = rng.choice(pairs)
+                pool.append({'kind': 'aligned', 'd1': d1, 'd2': d2})
+        elif r < 0.88:
+            if c1[0] != c2[0] and mains[c1[0]] and mains[c2[0]]:
+                pool.append({'kind': 'units', 'c1': rng.choice(mains[c1[0]]), 'c2': rng.choice(mains[c2[0]])})
+        elif r < 0.92:
+            if c1[0] != c2[0]:
+                n = rng.choice([1, 2])
+                if len(by_ds[c1[0]]) >= n and len(by_ds[c2[0]]) >= n:
+                    pool.append({'kind': 'offset', 'cids1': tuple(rng.sample(by_ds[c1[0]], n)), 'cids2': tuple(rng.sample(by_ds[c2[0]], n)),
+                                 'offsets': tuple(rng.randint(-3, 3) for _ in range(n))})
+        elif r < 0.95:
+            if c1[0] != c2[0]:
+                n = rng.choice([1, 2])
+                if len(by_ds[c1[0]]) >= n and len(by_ds[c2[0]]) >= n:
+                    if n == 1:
+                        rows = ((rng.choice([1, -1]), rng.randint(-3, 3)),)
+                    else:
+                        rows = ((1, rng.randint(-2, 2), rng.randint(-3, 3)), (0, rng.choice([1, -1]), rng.randint(-3, 3)))
+                    pool.append({'kind': 'affine', 'cids1': tuple(rng.sample(by_ds[c1[0]], n)), 'cids2': tuple(rng.sample(by_ds[c2[0]], n)),
+                                 'matrix': rows})
+        else:
+            subs = []
+            for _ in range(rng.randint(1, 3)):
+                if rng.random() < 0.4:
+                    x, y = pick_two()
+                    if x != y:
+                        f = rand_fn(rng, 1, unit=True)
+                        subs.append(((x,), y, f, inv_unit(f)))
+                else:
+                    subs.append(one_way())
+            if subs:
+                pool.append({'kind': 'manual', 'd1': c1[0], 'd2': c2[0], 'subs': tuple(subs)})
     return pool
 
 
@@ -865,7 +969,7 @@ def gen_history(rng, case, length, foreign=0.05):
             if rng.random() < foreign or not cand:
                 cand = list(range(len(pool)))
             i = rng.choice(cand)
-            if pool[i]['kind'] in ('same', 'twoway') and i in ext and rng.random() < 0.8:
+            if pool[i]['kind'] in COLLECTION_KINDS and i in ext and rng.random() < 0.8:
                 continue
             o = ('addlink', i)
             ext.append(i)
@@ -985,6 +1089,8 @@ def run_histories(R, name, cases, exhaustive, bound):
                 registered_at_end=min(len(last['ext']), 6))
         for o in case['ops']:
             R.hist['op_kind'][o[0]] += 1
+            if o[0] == 'addlink':
+                R.hist['link_kind'][case['pool'][o[1]]['kind']] += 1
         for ob in obs[1:]:
             R.hist['result_code'][str(ob['code'])] += 1
         seen = set()
@@ -1039,19 +1145,20 @@ def small_world():
             {'kind': 'twoway', 'c1': (0, 3), 'c2': (2, 2), 'f': (0, (2,)), 'g': (1, (1,))},
             {'kind': 'single', 'from': ((0, 2), (2, 2)), 'to': (1, 2), 'fn': (0, (1, 1)), 'inv': None},
             {'kind': 'invof', 'of': 2},
-            {'kind': 'single', 'from': ((1, 2),), 'to': (0, 6), 'fn': (1, (-1,)), 'inv': (1, (-1,))}]   # touches the derived attribute only
+            {'kind': 'single', 'from': ((1, 2),), 'to': (0, 6), 'fn': (1, (-1,)), 'inv': (1, (-1,))},   # touches the derived attribute only
+            {'kind': 'aligned', 'd1': 0, 'd2': 1}]           # LinkAligned: a collection whose cids1 / cids2 are empty
     return datasets, vals, ders, pool
 
 
 def stream_exhaustive(R):
     datasets, vals, ders, pool = small_world()
-    alpha_full = [('addlink', 0), ('addlink', 1), ('addlink', 2), ('addlink', 3), ('addlink', 4), ('addlink', 5), ('addlink', 6),
+    alpha_full = [('addlink', 0), ('addlink', 1), ('addlink', 2), ('addlink', 3), ('addlink', 4), ('addlink', 5), ('addlink', 6), ('addlink', 7),
                   ('addderived', 0, 7), ('removecomp', 0, 6),
                   ('removelink', 0), ('removelink', 2), ('setlinks', (1, 3)),
                   ('adddata', 2), ('removedata', 1), ('removedata', 2),
                   ('addcomp', 0, 3), ('removecomp', 0, 2), ('removecomp', 1, 2),
                   ('coordsnone', 1), ('delaybegin',), ('delayend',)]
-    alpha_small = [('addlink', 0), ('addlink', 1), ('addlink', 2), ('addlink', 3), ('addlink', 6), ('removelink', 0),
+    alpha_small = [('addlink', 0), ('addlink', 1), ('addlink', 2), ('addlink', 3), ('addlink', 6), ('addlink', 7), ('removelink', 0),
                    ('adddata', 2), ('removedata', 1), ('removecomp', 0, 2), ('coordsnone', 1), ('delaybegin',), ('delayend',)]
     alpha_tiny = [('addlink', 0), ('addlink', 6), ('removelink', 0), ('adddata', 2), ('removedata', 1),
                   ('removecomp', 0, 2), ('coordsnone', 1), ('delaybegin',), ('delayend',)]
@@ -1094,6 +1201,10 @@ def stream_graphs(R):
     for k, (x, y, z) in enumerate([(a, b, c), (a, c, b), (b, c, a)]):
         pool.append({'kind': 'single', 'from': (x, y), 'to': z, 'fn': (k, (1, -1)), 'inv': None})
     pool.append({'kind': 'twoway', 'c1': a, 'c2': (1, 0), 'f': (1, (1,)), 'g': (0, (2,))})
+    pool.append({'kind': 'aligned', 'd1': 0, 'd2': 2})
+    pool.append({'kind': 'offset', 'cids1': (a, (0, 0)), 'cids2': (b, (1, 0)), 'offsets': (1, -2)})
+    pool.append({'kind': 'units', 'c1': b, 'c2': c})
+    pool.append({'kind': 'affine', 'cids1': (c, (2, 0)), 'cids2': (a, (0, 0)), 'matrix': ((1, 2, -1), (0, -1, 3))})
     kmax = R.pick(3, 4)
     cases = []
     for k in range(1, kmax + 1):
@@ -1106,7 +1217,7 @@ def stream_graphs(R):
 
 # ---------------------------------------------------------------------- stream: random histories
 def stream_random(R):
-    n = R.pick(500, 2200)
+    n = R.pick(500, 2000)
     cases = []
     for i in range(n):
         rng = R.subrng('hist', i)
